@@ -129,6 +129,8 @@ def oracle(abbr, cfg, meta, r):
         for m in fu.EMPTY_ATTR_RE.finditer(final):
             if m.start() + 2 not in field_offsets:
                 return 'the empty attribute value at offset %d (%r) has no tabstop' % (m.start(), final[max(0, m.start() - 12):m.end()])
+    if meta.get('distinct') and len(set(emitted)) != len(emitted):
+        return 'tabstops of different values collide: field indices in document order are %r' % (emitted[:20],)
     groups = meta.get('groups')
     if groups is not None:
         return check_groups(emitted, groups)
@@ -230,6 +232,10 @@ FIXED = [
     ('ul>li.item$*2>a{t$ ${1:ph}}', {'syntax': 'pug'}),
     ('div.c[title]{a\nb}>p', {'syntax': 'haml', 'options': {'output.baseIndent': '  '}}),
     ('table>tr>td[title= colspan]', {'syntax': 'slim'}),
+    # comments on: the id/class text repeated inside the comment takes part in the one document-order numbering
+    ('div[class="foo ${1:bar}"]>p', {'options': {'comment.enabled': True}}),
+    ('section#s${1:x}.c>p+a[href]', {'options': {'comment.enabled': True, 'comment.before': '<!-- [#ID] -->'}}),
+    ('ul.l${2:m}${1:n}>li.i*2', {'options': {'comment.enabled': True, 'comment.after': '<!-- /[.CLASS] [#ID] -->'}}),
     ('p[title=""]', {'syntax': 'pug'}), ("a[href='' title]+b[t={}]", {'syntax': 'haml'}), ('p[title=""]>a[href=""]', {'syntax': 'slim'}),
     ('p[title=""]+a[href=\'\']', {}), ('input[value="" disabled.]', {'syntax': 'pug'}),
 ]
@@ -312,7 +318,8 @@ def run(ctx):
         cases.append((rec['abbr'], rec['config'], rec.get('meta')))
         ctx.cover('C13:corpus')
     for abbr, cfg in FIXED:
-        cases.append((abbr, cfg, {'explicit': fu.has_explicit_field(abbr)}))
+        # in the fixed cases no value mentions the same field index twice: all emitted indices must differ
+        cases.append((abbr, cfg, {'explicit': fu.has_explicit_field(abbr), 'distinct': True}))
     # exhaustive operator skeletons with four decorations (bare, empty attribute, text with fields,
     # self-closed) under five option sets: positions, 1..k numbering, tabstop count, field groups
     max_units = 2 if ctx.tier == 'quick' else 3
